@@ -102,22 +102,12 @@ def spec (c : Case) (o : Obs) : Bool :=
   o.table.all (entryOk c) &&
   (required c).all (fun r => o.table.contains r)
 
-/-- K17a: `__eq__` loads `NotImplemented` as a plain global and `_make_eq_script` does not inject it,
-    so a module-level `NotImplemented` wins -/
-def knownK17a (c : Case) : Bool :=
-  eqGenerated c && !(Generated.c17EqFixed.contains "NotImplemented") &&
-  (table c).any (fun e => e.meth == "eq" && e.name == "NotImplemented" && e.obj.kind == .module)
-
-/-- K17b: a `_x_key` / `x_repr` helper name coincides with an `__attr_…_y` helper name of another field -/
-def knownK17b (c : Case) : Bool := crossCollision c
-
-/-- K17c: an `__init__` parameter shadows a global (or local helper) of the same name in the body -/
+/-- K17c: an `__init__` parameter shadows a global (or local helper) of the same name in the body.
+    (K17a — module-level `NotImplemented` shadowing `__eq__`'s — and K17b — `_x_key` / `x_repr` helper
+    names coinciding with `__attr_…_y` names — are repaired in attrs; see Proofs/C17OldScheme.lean.) -/
 def knownK17c (c : Case) : Bool := paramShadows c
 
-def known (c : Case) : List String :=
-  (if knownK17a c then ["K17a"] else []) ++
-  (if knownK17b c then ["K17b"] else []) ++
-  (if knownK17c c then ["K17c"] else [])
+def known (c : Case) : List String := if knownK17c c then ["K17c"] else []
 
 def sameSet {α : Type} [BEq α] (a b : List α) : Bool := a.all (b.contains ·) && b.all (a.contains ·)
 
